@@ -38,6 +38,19 @@ func readAllMsgs(conn *websocket.Conn, bufSize func() int, maxMsgs int) readTrac
 	var tr readTrace
 	ctx := context.Background()
 	for len(tr.Msgs) < maxMsgs {
+		if bufSize() < 0 {
+			// Conn.Read: the whole message at once (what it hands back together with an error counts as delivered)
+			typ, b, err := conn.Read(ctx)
+			if err != nil {
+				if len(b) > 0 {
+					tr.Msgs = append(tr.Msgs, readMsg{Typ: typ, Data: b})
+				}
+				tr.FinalErr = err
+				return tr
+			}
+			tr.Msgs = append(tr.Msgs, readMsg{Typ: typ, Data: b, EOF: true})
+			continue
+		}
 		typ, r, err := conn.Reader(ctx)
 		if err != nil {
 			tr.FinalErr = err
@@ -87,7 +100,7 @@ var c03Modes = []c03Mode{
 // violation kinds injected into otherwise valid streams.
 var c03Violations = []string{
 	"rsv2", "rsv3", "rsv1-illegal", "reserved-opcode", "wrong-mask", "control-too-long", "control-fragmented",
-	"sequence", "top-bit-length", "close-1byte", "close-badcode", "valid-close", "non-minimal",
+	"sequence", "top-bit-length", "close-1byte", "close-badcode", "valid-close", "non-minimal", "huge-declared",
 }
 
 type c03Stream struct {
@@ -184,6 +197,16 @@ func injectViolation(rt *rapid.T, frames []ref.Frame, kind string, pos int, defl
 			return insertFrame(frames, pos, ref.Frame{Fin: rapid.Bool().Draw(rt, "sfin"), Opcode: ref.OpText, Payload: []byte("new message inside")}), "data-inside-open-message"
 		}
 		return insertFrame(frames, pos, ref.Frame{Fin: rapid.Bool().Draw(rt, "sfin"), Opcode: ref.OpCont, Payload: []byte("orphan continuation")}), "continuation-without-message"
+	case "huge-declared":
+		// a legal header announcing 2^40..2^62 bytes, of which three arrive before the stream ends
+		// (always the last frame: everything behind it would be its payload)
+		v := uint64(1) << uint(rapid.SampledFrom([]int{40, 48, 56, 62}).Draw(rt, "hugeBits"))
+		v += uint64(rapid.IntRange(0, 1<<20).Draw(rt, "hugeLow"))
+		op := byte(ref.OpBinary)
+		if openMsgAt(frames, len(frames)) {
+			op = ref.OpCont
+		}
+		return append(frames, ref.Frame{Fin: true, Opcode: op, Payload: []byte("abc"), DeclaredLen: &v, Truncated: true}), kind
 	case "top-bit-length":
 		v := uint64(1)<<63 | uint64(rapid.IntRange(0, 1<<30).Draw(rt, "hugeLow"))
 		op := byte(ref.OpBinary)
@@ -250,7 +273,7 @@ func finishMasking(frames []ref.Frame, libIsClient bool) ([]ref.Frame, []byte, [
 }
 
 func drawBufSize(rt *rapid.T) int {
-	return rapid.SampledFrom([]int{1, 2, 7, 64, 512, 4096, 32768, 100000}).Draw(rt, "readBuf")
+	return rapid.SampledFrom([]int{1, 2, 7, 64, 512, 4096, 32768, 100000, -1, -1}).Draw(rt, "readBuf") // -1: Conn.Read
 }
 
 // compareRecv checks a read trace and the library's outbound frames against the
@@ -389,12 +412,28 @@ func firstDiff(a, b []byte) int {
 type c03Pause struct {
 	Off int
 	D   time.Duration
+	// Early (server role): the first Early bytes of the stream arrive together with the handshake request.
+	Early int
 }
 
 func runC03(t fataler, mode c03Mode, frames []ref.Frame, stream []byte, sizes []int, maxRead int, bufSize int, limit int64, intended [][]byte, pause ...c03Pause) string {
 	e := newEnv(t)
 	defer e.Teardown()
-	lc, err := e.open(connSpec{Client: mode.Client, Mode: mode.Mode, Ext: mode.Ext})
+	spec := connSpec{Client: mode.Client, Mode: mode.Mode, Ext: mode.Ext}
+	if len(pause) > 0 && pause[0].Early > 0 && !mode.Client {
+		early := pause[0].Early
+		if early > len(stream) {
+			early = len(stream)
+		}
+		spec.Pipelined = stream[:early]
+		stream = stream[early:]
+		if pause[0].Off -= early; pause[0].Off < 0 {
+			// the quiet period would fall inside the pipelined part, i.e. possibly inside a frame:
+			// a control frame delayed for longer than 5 s is rightly failed
+			pause[0].Off, pause[0].D = 0, 0
+		}
+	}
+	lc, err := e.open(spec)
 	if err != nil {
 		return "handshake: " + err.Error()
 	}
@@ -438,7 +477,7 @@ func runC03(t fataler, mode c03Mode, frames []ref.Frame, stream []byte, sizes []
 
 func TestC03(t *testing.T) {
 	rec := evid.For("C03")
-	rec.Rule = "rapid-generated inbound streams from an independent encoder: 1-5 messages with drawn fragmentation (incl. empty fragments, runs of 20-300 empty continuation frames, cuts inside compressed payloads), foreign deflater variants (sync, BFINAL=1+00, stored, multi-flush, levels), interleaved Ping/Pong at every position, 0-2 injected violations or a valid Close, non-minimal lengths (comparison stops there), over 9 (role, negotiated compression) settings obtained through the real handshake, transport chunking down to 1 byte, in a quarter of the cases a quiet period of 6 or 20 s (virtual) before a drawn frame while the reader waits, read buffer sizes 1..100000; compared with the reference receiver. Non-trivial: a control frame inside a fragmented message, or an injected violation/Close, or a compressed message in >=2 fragments. distinct = hash(mode, frame shape sequence, violation kinds, chunking kind)."
+	rec.Rule = "rapid-generated inbound streams from an independent encoder: 1-5 messages with drawn fragmentation (incl. empty fragments, runs of 20-300 empty continuation frames, cuts inside compressed payloads), foreign deflater variants (sync, BFINAL=1+00, stored, multi-flush, levels), interleaved Ping/Pong at every position, 0-2 injected violations or a valid Close, non-minimal lengths (comparison stops there), over 9 (role, negotiated compression) settings obtained through the real handshake, transport chunking down to 1 byte, in a quarter of the cases a quiet period of 6 or 20 s (virtual) before a drawn frame while the reader waits, in a quarter of the server cases the beginning of the stream pipelined with the handshake request, read through Reader with buffer sizes 1..100000 or through Conn.Read; compared with the reference receiver. Non-trivial: a control frame inside a fragmented message, or an injected violation/Close, or a compressed message in >=2 fragments. distinct = hash(mode, frame shape sequence, violation kinds, chunking kind)."
 	rapid.Check(t, func(rt *rapid.T) {
 		mode := rapid.SampledFrom(c03Modes).Draw(rt, "mode")
 		deflate := mode.Mode != websocket.CompressionDisabled
@@ -446,11 +485,21 @@ func TestC03(t *testing.T) {
 		msgs, frames := genInStream(rt, inStreamOpts{Deflate: deflate, Takeover: takeover, MaxMsgs: 5, MaxLen: 9000, MaxFrags: 4, Controls: true, AllowBFin: true, EmptyRuns: true})
 		nInj := rapid.SampledFrom([]int{0, 0, 1, 1, 1, 2}).Draw(rt, "nInject")
 		var kinds []string
+		hugeLast := false
 		for i := 0; i < nInj; i++ {
 			k := rapid.SampledFrom(c03Violations).Draw(rt, "violation")
+			if k == "huge-declared" {
+				hugeLast = true // goes in behind everything else: whatever follows it would be its payload
+				continue
+			}
 			pos := rapid.IntRange(0, len(frames)).Draw(rt, "pos")
 			var got string
 			frames, got = injectViolation(rt, frames, k, pos, deflate)
+			kinds = append(kinds, got)
+		}
+		if hugeLast {
+			var got string
+			frames, got = injectViolation(rt, frames, "huge-declared", len(frames), deflate)
 			kinds = append(kinds, got)
 		}
 		frames, stream, ends := finishMasking(frames, mode.Client)
@@ -464,6 +513,10 @@ func TestC03(t *testing.T) {
 				pause.Off = ends[k-1]
 			}
 			pause.D = rapid.SampledFrom([]time.Duration{6 * time.Second, 20 * time.Second}).Draw(rt, "quietFor")
+		}
+		if !mode.Client && len(stream) > 0 && rapid.IntRange(0, 3).Draw(rt, "pipelined") == 0 {
+			// the beginning of the stream arrives in the same segment as the handshake request
+			pause.Early = rapid.SampledFrom([]int{1, 2, 6, 7, len(stream) / 2, len(stream)}).Draw(rt, "pipelinedBytes")
 		}
 		limit := rapid.SampledFrom([]int64{-1, 1 << 20}).Draw(rt, "limit")
 		intended := make([][]byte, len(msgs))
@@ -499,6 +552,9 @@ func TestC03(t *testing.T) {
 		classes := []string{"mode:" + mode.Name, "chunk:" + chunk}
 		if pause.D > 0 {
 			classes = append(classes, "peer-quiet-for-6s-or-more-before-a-frame")
+		}
+		if pause.Early > 0 {
+			classes = append(classes, "stream-begins-in-the-segment-of-the-handshake-request")
 		}
 		for _, k := range kinds {
 			classes = append(classes, "inject:"+k)
